@@ -234,11 +234,23 @@ def run (p : Path) (ops : List Opd) (fail : Mask) : Option (Shape × Mask) :=
       (ctor m a.shape).map fun m' => (a.shape, m')
   | _, _ => none
 
-/-- `Matrix3.__mul__` (matrix3.py:342-364): "Matrix3 times Scalar returns the same Scalar" — when the
-    right operand has item rank 0 it is returned ITSELF (the matrix's mask and leading shape play no
-    part); everything else goes to `Qube.__mul__` (→ `Qube.dot` → `or_` + constructor). -/
+/-- `np.broadcast_to(mask, shape)` on either representation (a single bool stays a single bool) -/
+def Mask.bto (m : Mask) (shape : Shape) : Mask :=
+  match m with
+  | .all b => .all b
+  | .arr a => .arr (a.bto shape)
+
+/-- `Matrix3.__mul__` (matrix3.py:344-382, repaired): when the right operand has item rank 0 the
+    Scalar is "rotated", i.e. returned — broadcast to the common leading shape
+    (`Qube.broadcasted_shape`, ValueError for incompatible shapes) and, if the matrix is masked
+    anywhere (`np.any(self._mask_)`), with the matrix's mask OR-ed in by `remask_or`; everything
+    else goes to `Qube.__mul__` (→ `Qube.dot` → `or_` + constructor). -/
 def matrix3Mul (argIsScalar : Bool) (r x : Opd) : Option (Shape × Mask) :=
-  if argIsScalar then some (x.shape, x.mask)
+  if argIsScalar then
+    (bcast r.shape x.shape).bind fun out =>
+      let xm := if out = x.shape then x.mask else x.mask.bto out     -- arg.broadcast_to(shape).copy()
+      if r.mask.any then (remaskOr xm out (r.mask.bto out)).map fun m => (out, m)
+      else some (out, xm)
   else run (.ctorOr false) [r, x] (.all false)
 
 /-- the shape on which the code computes the failure set of a path, and the result shape -/
